@@ -44,6 +44,7 @@ def shards(tier, seed):
     n = 60 if tier == "quick" else 6000
     out = [dict(kind="hw", branch=i, seed=seed * 100 + i, n=n) for i in range(len(BRANCHES))]
     out += [dict(kind="gen", seed=seed * 1000 + i, n=150 if tier == "quick" else 20000) for i in range(8)]
+    out += [dict(kind="e2e", branch=i, seed=seed * 100 + 50 + i, n=12 if tier == "quick" else 600) for i in range(len(BRANCHES))]
     return out
 
 
@@ -119,6 +120,15 @@ def gen(desc):
         rules = dump_rules(implicit.compile_rules(Dev(model, tags)))
         for _ in range(desc["n"]):
             yield dict(kind="hw", model=model, tags=tags, tree=gen_tree(rng, rules), tree2=gen_tree(rng, rules))
+    elif desc["kind"] == "e2e":
+        # the whole `ann gen/diff/patch` path for one device: device text (tree) and a generator whose ACL owns the
+        # sections of the defaults but whose output (tree2) does not necessarily print them
+        model, tags = BRANCHES[desc["branch"]]
+        rules = dump_rules(implicit.compile_rules(Dev(model, tags)))
+        for k in range(desc["n"]):
+            dev_tree = [] if k % 3 == 0 else gen_tree(rng, rules)
+            yield dict(kind="e2e", model=model, tags=tags, tree=dev_tree, tree2=gen_tree(rng, rules),
+                       drop_acl=rng.random() < 0.15)
     else:
         for _ in range(desc["n"]):
             text = rbgen.render(gen_rules_text(rng))
@@ -128,7 +138,7 @@ def gen(desc):
 
 def rules_of(case):
     from annet import implicit
-    if case["kind"] == "hw":
+    if case["kind"] in ("hw", "e2e"):
         return implicit.compile_rules(Dev(case["model"], case["tags"]))
     return implicit.compile_tree(implicit.parse_text(case["text"]))
 
@@ -252,6 +262,87 @@ def patch_clause(case, rules, out):
         return
 
 
+def _ops(tree):
+    return [["b", [row], None, _ops(ch)] if ch else ["y", row] for row, ch in tree]
+
+
+def _text(tree, depth=0):
+    return "".join(" " * depth + row + "\n" + _text(ch, depth + 1) for row, ch in tree)
+
+
+def _acl_text(case, rules):
+    """an ACL that owns every section a default, a device row or a generated row lives in (first word + ~, children ~)"""
+    heads = []
+    for row in list(rules) + [r for r, _ in case["tree"]] + [r for r, _ in case["tree2"]]:
+        h = row.split(" ")[0]
+        if h == "no" and len(row.split(" ")) > 1:
+            h = "no " + row.split(" ")[1]
+        if h not in heads:
+            heads.append(h)
+    if case.get("drop_acl") and len(heads) > 1:
+        heads = heads[1:]
+    return "".join("%s ~\n    ~\n        ~\n" % h if h.split(" ")[-1] != "~" else h + "\n" for h in heads)
+
+
+def e2e_clause(case, rules, out):
+    """gen._old_new_per_device (add_implicit) + api._diff_and_patch on a stub device: a default that is neither in the
+    device text nor in the generator output must not appear in the diff (hence in no command)"""
+    from annet import api
+    from harness.props import c10
+    vendor = Dev(case["model"], case["tags"]).hw.vendor
+    gen_cls = c10.make_generator("G0", vendor, _acl_text(case, rules), _ops(case["tree2"]))
+    try:
+        res = c10.run_old_new(case["model"], [gen_cls], _text(case["tree"]) or None, add_implicit=True,
+                              tags=case["tags"])
+        if res.err:
+            return
+        dev = Dev(case["model"], case["tags"])
+        diff, _pt = api._diff_and_patch(dev, res.old, res.new, res.acl_rules, None, False)
+    except Exception:
+        return
+    _spurious(rbgen.to_odict(case["tree"]) if case["tree"] else res_explicit_old(case, res),
+              rbgen.to_odict(case["tree2"]), diff, rules, out, " (whole pipeline gen._old_new_per_device + api._diff_and_patch)")
+
+
+def res_explicit_old(case, res):
+    # empty device text: what the device "says" is what run_partial_initial yields (empty except on Huawei CE)
+    from annet import generators
+    from harness.props import c10
+    dev = c10.StubDevice(case["model"])
+    dev.tags = list(case["tags"])
+    return generators.run_partial_initial(dev).config_tree()
+
+
+def _entries(d, path=()):
+    for (op, row, ch, _m) in d:
+        if op in ("added", "removed"):
+            yield path + (row,)
+        yield from _entries(ch, path + (row,))
+
+
+def _has(tree, path):
+    for k in path:
+        if k not in tree:
+            return False
+        tree = tree[k]
+    return True
+
+
+def _spurious(t, u, diff, rules, out, where=""):
+    changed = set(_entries(diff))
+    dt = dict(default_paths(t, rules))
+    du = dict(default_paths(u, rules))
+    for p in sorted(set(dt) | set(du)):
+        if _has(t, p) or _has(u, p) or p not in changed:
+            continue
+        kind_present = dt.get(p, False) or du.get(p, False)
+        one_sided_parent = _has(t, p[:-1]) != _has(u, p[:-1])
+        out.append(dict(sig="default-toggles-with-matching-row" if kind_present else
+                        "default-under-one-sided-parent" if one_sided_parent else "spurious-default-command",
+                        what="diff entry (and command) for %r although that default is in neither config%s" % (p, where)))
+        return
+
+
 def oracle(case, r):
     out = []
     rules = rules_of(case)
@@ -260,12 +351,14 @@ def oracle(case, r):
     if not ordered_sub(case["tree"], r["merged"]):
         out.append(dict(sig="explicit-line-lost", what="the completed config does not contain the explicit config in order"))
     iff_check(t, m, rules, (), out)
-    if case["kind"] == "hw" or not cross_match(rules):
+    if case["kind"] in ("hw", "e2e") or not cross_match(rules):
         _, m2 = complete(m, rules)
         if rbgen.to_list(m2) != r["merged"]:
             out.append(dict(sig="completion-not-idempotent", what="completing a completed config adds something"))
     if case["kind"] == "hw":
         patch_clause(case, rules, out)
+    if case["kind"] == "e2e":
+        e2e_clause(case, rules, out)
     seen, uniq = set(), []
     for v in out:
         if v["sig"] not in seen:
@@ -284,8 +377,10 @@ def nontrivial(case, r):
 
 def stats(case, r):
     lab = ["kind=" + case["kind"]]
-    if case["kind"] == "hw":
+    if case["kind"] in ("hw", "e2e"):
         lab.append("hw=" + case["model"])
+    if case["kind"] == "e2e":
+        lab.append("e2e-device-text=" + ("empty" if not case["tree"] else "non-empty"))
     lab.append("added=%d" % min(5, count(r["merged"]) - count(case["tree"])))
     return lab
 
